@@ -7,6 +7,7 @@ import (
 	"os"
 	"path/filepath"
 	"strings"
+	"sync"
 	"time"
 )
 
@@ -36,13 +37,66 @@ func runC12(em *vEmitter, r *vRng) {
 			panic(err)
 		}
 		api := st.GetInterface()
+		seqUsers := users
+		burst := 0
+		if mode == "local" && si%4 == 3 {
+			// a login burst of many upgradeable users first (more than the upgrade queue holds), then
+			// quiescence: afterwards the agent is idle again and every login must upgrade as usual
+			burst = 150
+			var bu []string
+			for i := 0; i < burst; i++ {
+				u := fmt.Sprintf("burst%03d", i)
+				pid := def%3 + 1
+				sl := 16
+				if pid == 2 {
+					sl = 32
+				}
+				pw[u] = "pw-" + u
+				ms.plant(u, false, pid, 1600000100+int64(i), r.bytes(sl), []byte(pw[u]), "")
+				bu = append(bu, u)
+			}
+			var wg sync.WaitGroup
+			for _, u := range bu {
+				wg.Add(1)
+				go func(u string) { defer wg.Done(); api.Authenticate(u, pw[u]) }(u)
+			}
+			wg.Wait()
+			// wait until nothing changes any more
+			prev := ""
+			for i := 0; i < 100; i++ {
+				time.Sleep(100 * time.Millisecond)
+				cur := ms.snapshotTerm()
+				if cur == prev {
+					break
+				}
+				prev = cur
+			}
+			// the users the burst left behind come first
+			var left []string
+			for _, u := range bu {
+				if firstLinePid(userFile(ms.base, u)) != int(def) {
+					left = append(left, u)
+				}
+			}
+			vStats["burst/left-behind"] += len(left)
+			if len(left) > 10 {
+				left = left[:10]
+			}
+			seqUsers = append(append([]string{}, left...), users...)
+		}
 		initDir := ms.snapshotTerm()
 		last := initDir
 		var steps []string
 		var human []string
 		n := 6 + r.intn(8)
+		if burst > 0 {
+			n = 14
+		}
 		for k := 0; k < n; k++ {
-			u := users[r.intn(len(users))]
+			u := seqUsers[r.intn(len(seqUsers))]
+			if burst > 0 && k < len(seqUsers)-len(users) {
+				u = seqUsers[k]
+			}
 			p := pw[u]
 			if r.intn(3) == 0 {
 				p = []string{"wrong", p + "x", strings.ToUpper(p), ""}[r.intn(4)]
